@@ -208,7 +208,7 @@ def gen_e2e(ctx):
             for so in sslopts:
                 for wrap in ("ok", "TRANSPORT"):
                     for envk in (None, ("file", "/env/bundle.pem")):
-                        for chain in (False, True):
+                        for chain in (False, True, "same-endpoint"):
                             rand = bytes(rnd.randrange(256) for _ in range(32))
                             k0, k1 = key_of(rand[:16]), key_of(rand[16:])
                             pre = [("chunk", b"HTTP/1.1 200 Connection established\r\n\r\n")] if tunnel else []
@@ -216,8 +216,14 @@ def gen_e2e(ctx):
                             if s2 and s2.get("context") == "user":
                                 s2["context"] = h2lib.user_context(3)
                             _, env, isfile, isdir = mk(None, None, None, None, envk, None, False)
-                            if chain:
+                            url = f"{scheme}://first.example/y"
+                            if chain == "same-endpoint":
+                                # the redirect changes the SCHEME but not host and port: the target's scheme decides about TLS
+                                url = "ws://first.example:443/y" if scheme == "ws" else "wss://first.example:80/y"
+                                loc = "wss://first.example/z" if scheme == "ws" else "ws://first.example/z"
+                            elif chain:
                                 loc = "wss://second.example:8443/z" if scheme == "ws" else "ws://second.example/z"
+                            if chain:
                                 dials = [DialSpec(pre + [("chunk", response("302", [("Location", loc)], reason="Found"))],
                                                   rand=rand[:16], wrap="ok"),
                                          DialSpec(pre + [("chunk", response("101", good_headers(k1)))], rand=rand[16:], wrap=wrap)]
@@ -225,9 +231,9 @@ def gen_e2e(ctx):
                             else:
                                 dials = [DialSpec(pre + [("chunk", response("101", good_headers(k0)))], rand=rand[:16], wrap=wrap)]
                                 locs = []
-                            yield Case(f"{scheme}://first.example/y", dials, sslopt=s2, env=env, isfile=isfile, isdir=isdir,
+                            yield Case(url, dials, sslopt=s2, env=env, isfile=isfile, isdir=isdir,
                                        proxy=("proxy.local", 3128, None) if tunnel else None, locations=locs,
-                                       tag=f"e2e:{scheme}:{'tunnel' if tunnel else 'direct'}:{wrap}:{'chain' if chain else 'one'}")
+                                       tag=f"e2e:{scheme}:{'tunnel' if tunnel else 'direct'}:{wrap}:{chain if chain == 'same-endpoint' else 'chain' if chain else 'one'}")
 
 
 def judge_order(ctx, case, run, spec_pol):
@@ -256,6 +262,38 @@ def judge_order(ctx, case, run, spec_pol):
                 ctx.violate("tls-before-data", "plaintext-other-than-connect", inp, "CONNECT is the only plaintext", e, size)
             if idx in wrapped_ok:
                 ctx.violate("tls-before-data", "connect-after-wrap", inp, "CONNECT precedes the wrap", e, size)
+
+
+def judge_requests(ctx, case, run):
+    """every upgrade request goes out on a transport that fits ITS URL's scheme: a wss target's request only through a
+    wrapped transport, whatever connection an earlier hop of a redirect chain left behind."""
+    from websocket._url import parse_url
+    inp = case_json(case)
+    urls = [case.url] + case.locations
+    wrapped = set()
+    for e in run.net.timeline:
+        if e[0] == "W" and e[1:].split(":")[2] == "1":
+            wrapped.add(int(e[1:].split(":")[0]))
+    for idx, kind, data in [(x[0], x[1], x[2]) for x in run.net.writes]:
+        if kind != "I" or not bytes(data).startswith(b"GET "):
+            continue
+        target = bytes(data).split(b" ", 2)[1].decode("latin-1")
+        for u in urls:
+            try:
+                h, p_, res, sec = parse_url(u)
+            except Exception:  # noqa
+                continue
+            if res == target and sec and idx not in wrapped:
+                ctx.violate("tls-before-data", "wss-request-on-a-transport-that-was-never-wrapped", inp,
+                            f"the request for {u} goes through TLS", f"GET {target} written on plain transport #{idx}",
+                            len(json.dumps(inp)))
+                return
+            if res == target and not sec and idx in wrapped and not any(
+                    parse_url(v)[2] == target and parse_url(v)[3] for v in urls):
+                ctx.violate("tls-before-data", "ws-request-inside-the-tls-session-of-another-url", inp,
+                            f"the request for {u} goes out on its own plain connection", f"GET {target} written on wrapped transport #{idx}",
+                            len(json.dumps(inp)))
+                return
 
 
 def timeline_tokens(case, run):
@@ -322,6 +360,7 @@ def run_e2e(ctx):
         pols.setdefault(ri, {})[i] = s
     for ri, (case, r) in enumerate(zip(cases, runs)):
         judge_order(ctx, case, r, pols.get(ri, {}))
+        judge_requests(ctx, case, r)
     ctx.traces_vs_impl += len(lines)
 
 
